@@ -6,7 +6,7 @@
    the model or with the characterisation on a property-level observable is kind=api. *)
 open Model
 
-let rec nat_of_int n = if n <= 0 then O else S (nat_of_int (n - 1))
+let nat_of_int n = let rec go acc k = if k <= 0 then acc else go (S acc) (k - 1) in go O n
 let rec int_of_nat = function O -> 0 | S n -> 1 + int_of_nat n
 let split_on s sep = Str.split_delim (Str.regexp_string sep) s
 let trim = String.trim
@@ -23,7 +23,7 @@ let parse_syms s = if s = "" || s = "e" then [] else List.map parse_sym (split_o
 
 let parse_header h =
   match List.filter (fun x -> x <> "") (split_on h " ") with
-  | "G" :: a :: b :: c :: p :: ([] | [ "names=same" ]) ->
+  | "G" :: a :: b :: c :: p :: ([] | [ "names=same" ] | [ "names=concat" ]) ->
     let ps = if p = "-" then [] else
         List.map (fun q -> match split_on q ">" with
             | [ hd; bd ] -> (int_of_string hd, parse_syms bd)
@@ -171,13 +171,25 @@ let prod_index (mg : gram) p =
 
 let show_set_flag ts flag yes = join_ints "-" ts ^ "/" ^ (if flag then yes else "-")
 
-let rec show_tree mg = function
-  | Leaf (a, l) -> Printf.sprintf "t%d:%d" (int_of_nat a) (int_of_nat l)
-  | Node (a, p, ch) ->
-    "(" ^ String.concat " " (Printf.sprintf "n%d#%d" (int_of_nat a) (prod_index mg p) :: List.map (show_tree mg) ch) ^ ")"
+let show_tree mg t =
+  let b = Buffer.create 256 in
+  let rec go = function
+    | Leaf (a, l) -> Buffer.add_string b (Printf.sprintf "t%d:%d" (int_of_nat a) (int_of_nat l))
+    | Node (a, p, ch) ->
+      Buffer.add_string b (Printf.sprintf "(n%d#%d" (int_of_nat a) (prod_index mg p));
+      List.iter (fun c -> Buffer.add_char b ' '; go c) ch;
+      Buffer.add_char b ')' in
+  go t; Buffer.contents b
 
 let show_yield y = if y = [] then "-" else
     String.concat "." (List.map (fun (a, l) -> Printf.sprintf "%d:%d" (int_of_nat a) (int_of_nat l)) y)
+
+(* inputs longer than this run on the model without lexemes (unary numerals), and the
+   implementation's answer is compared with its lexemes stripped; the check "yield = input with
+   the lexemes 0..n-1" on the implementation's tree stays exact *)
+let big_input = 300
+let strip_lexemes s = Str.global_replace (Str.regexp ":[0-9?]+") "" s
+let shorten s = if String.length s > 300 then String.sub s 0 300 ^ " ...[" ^ string_of_int (String.length s) ^ " chars]" else s
 
 let parse_tokens s = if s = "e" || s = "" then [] else List.map int_of_string (split_on s ".")
 
@@ -209,7 +221,7 @@ let setmax k v = if v > (try Hashtbl.find stats k with Not_found -> 0) then Hash
 let () =
   let lineno = ref 0 and samples = ref 0 in
   let nontrivial = Hashtbl.create 1024 in
-  let fuel = nat_of_int 20000 in
+  let fuel_for n = nat_of_int (max 20000 (60 * (n + 10))) in
   (try
      while true do
        let line = input_line stdin in
@@ -223,7 +235,11 @@ let () =
            Printf.ksprintf (fun s -> Printf.printf "MISMATCH line=%d op=%d kind=%s what=%s\n" !lineno !opno kind s) fmt in
          (let g = !ctx.g in
           setmax "max_nonterminals" g.nn; setmax "max_terminals" g.nt; setmax "max_productions" (Array.length g.ps));
-         if List.length (List.filter (fun x -> x <> "") (split_on head " ")) = 6 then bump "cases_shared_names";
+         (match List.filter (fun x -> x <> "") (split_on head " ") with
+          | [ _; _; _; _; _; "names=same" ] -> bump "cases_shared_names"
+          | [ _; _; _; _; _; "names=concat" ] -> bump "cases_concat_names"
+          | _ -> ());
+         if !ctx.g.nt >= 20 then bump "wide_grammars";
          let accepted = ref 0 and rejected = ref 0 and did_parse = ref false in
          let fi_count = ref 0 and brute_on = ref true in
          if !ctx.valid && !ctx.an = None then begin
@@ -351,7 +367,10 @@ let () =
                bump ("op_" ^ toks.(0)); did_parse := true;
                let w = parse_tokens toks.(1) in
                setmax "max_input_len" (List.length w);
-               let mw = List.mapi (fun i t -> (nat_of_int t, nat_of_int i)) w in
+               let big = List.length w > big_input in
+               if big then bump "deep_inputs";
+               let fuel = fuel_for (List.length w) in
+               let mw = List.mapi (fun i t -> (nat_of_int t, if big then O else nat_of_int i)) w in
                let idxs ps = join_ints "-" (List.map (prod_index mg) ps) in
                let expect = match parse_bt bt mg.start fuel mw with
                  | PAccept ps -> incr accepted; bump "parse_accept"; "acc;" ^ idxs ps
@@ -363,34 +382,43 @@ let () =
                let cls s = if String.length s >= 3 then String.sub s 0 3 else s in
                if res <> "?" then begin
                  if cls res <> cls expect then
-                   mismatch "api" "Parse %s: implementation %s, proved model %s on %s" toks.(1) res expect head
+                   mismatch "api" "Parse %s: implementation %s, proved model %s on %s" (shorten toks.(1)) (shorten res) (shorten expect) (shorten head)
                  else if cls res = "acc" && res <> expect then
-                   mismatch "api" "Parse %s accepted with production sequence %s, proved model %s on %s" toks.(1) res expect head
+                   mismatch "api" "Parse %s accepted with production sequence %s, proved model %s on %s" (shorten toks.(1)) (shorten res) (shorten expect) (shorten head)
                  else if res <> expect then
-                   mismatch "fidelity" "Parse %s: implementation %s, model %s on %s" toks.(1) res expect head;
+                   mismatch "fidelity" "Parse %s: implementation %s, model %s on %s" (shorten toks.(1)) (shorten res) (shorten expect) (shorten head);
                  (* independent: verdict against the span-table recogniser; derivation check *)
                  if not a.an_conflict && List.for_all (fun t -> t < g.nt) w && (cls res = "acc" || cls res = "rej") then begin
-                   let inl = ind_member g (Array.of_list w) in
-                   bump "membership_checks";
-                   if inl && cls res = "rej" then
-                     mismatch "api" "Parse %s rejected a sentence of the grammar (independent recogniser) on %s" toks.(1) head;
-                   if (not inl) && cls res = "acc" then
-                     mismatch "api" "Parse %s accepted a string that is not a sentence (independent recogniser) on %s" toks.(1) head;
+                   if List.length w <= 60 then begin
+                     (* the span table is quadratic in the input length *)
+                     let inl = ind_member g (Array.of_list w) in
+                     bump "membership_checks";
+                     if inl && cls res = "rej" then
+                       mismatch "api" "Parse %s rejected a sentence of the grammar (independent recogniser) on %s" toks.(1) head;
+                     if (not inl) && cls res = "acc" then
+                       mismatch "api" "Parse %s accepted a string that is not a sentence (independent recogniser) on %s" toks.(1) head
+                   end;
                    if cls res = "acc" then begin
                      match split_on res ";" with
                      | [ _; seq ] ->
                        let seq = parse_tokens (if seq = "-" then "e" else seq) in
-                       let form = ref [ N g.st ] and ok = ref true in
+                       (* replay: the consumed terminal prefix is checked against the input as it appears *)
+                       let wa = Array.of_list w in
+                       let form = ref [ N g.st ] and ok = ref true and pos = ref 0 in
+                       let rec strip () = match !form with
+                         | T t :: r -> if !pos < Array.length wa && wa.(!pos) = t then (incr pos; form := r; strip ()) else ok := false
+                         | _ -> () in
                        List.iter (fun pi ->
-                           if pi < 0 || pi >= Array.length g.ps then ok := false else begin
-                             let (h, b) = g.ps.(pi) in
-                             let rec go pre = function
-                               | (T _ as x) :: r -> go (x :: pre) r
-                               | N a :: r when a = h -> form := List.rev_append pre (b @ r)
-                               | _ -> ok := false in
-                             go [] !form end) seq;
-                       if not (!ok && !form = List.map (fun t -> T t) w) then
-                         mismatch "api" "Parse %s: the emitted productions %s are not a leftmost derivation of the input on %s" toks.(1) res head
+                           if !ok then begin
+                             strip ();
+                             if pi < 0 || pi >= Array.length g.ps then ok := false else
+                               let (h, b) = g.ps.(pi) in
+                               match !form with
+                               | N a :: r when a = h -> form := b @ r
+                               | _ -> ok := false end) seq;
+                       if !ok then strip ();
+                       if not (!ok && !form = [] && !pos = Array.length wa) then
+                         mismatch "api" "Parse %s: the emitted productions %s are not a leftmost derivation of the input on %s" (shorten toks.(1)) (shorten res) (shorten head)
                      | _ -> ()
                    end
                  end
@@ -398,7 +426,9 @@ let () =
              | ("A" | "MA"), Some a ->
                bump ("op_" ^ toks.(0)); did_parse := true;
                let w = parse_tokens toks.(1) in
-               let mw = List.mapi (fun i t -> (nat_of_int t, nat_of_int i)) w in
+               let big = List.length w > big_input in
+               let fuel = fuel_for (List.length w) in
+               let mw = List.mapi (fun i t -> (nat_of_int t, if big then O else nat_of_int i)) w in
                let expect = match parseAndBuildAST_bt bt mg.start fuel mw with
                  | PAccept (Some t) -> "acc;" ^ show_yield (yield t) ^ ";" ^ show_tree mg t
                  | PAccept None -> "acc;BROKEN"
@@ -408,14 +438,14 @@ let () =
                let cls s = if String.length s >= 3 then String.sub s 0 3 else s in
                if res <> "?" then begin
                  if cls res <> cls expect then
-                   mismatch "api" "ParseAndBuildAST %s: implementation %s, proved model %s on %s" toks.(1) res expect head
+                   mismatch "api" "ParseAndBuildAST %s: implementation %s, proved model %s on %s" (shorten toks.(1)) (shorten res) (shorten expect) (shorten head)
                  else if cls res = "acc" then begin
                    let want_yield = if w = [] then "-" else String.concat "." (List.mapi (fun i t -> Printf.sprintf "%d:%d" t i) w) in
                    (match split_on res ";" with
                     | _ :: y :: _ when y = want_yield -> ()
-                    | _ -> mismatch "api" "ParseAndBuildAST %s: the yield of the tree %s is not the input on %s" toks.(1) res head);
-                   if res <> expect then
-                     mismatch "fidelity" "ParseAndBuildAST %s: implementation tree %s, model %s on %s" toks.(1) res expect head
+                    | _ -> mismatch "api" "ParseAndBuildAST %s: the yield of the tree %s is not the input on %s" (shorten toks.(1)) (shorten res) (shorten head));
+                   if (if big then strip_lexemes res <> strip_lexemes expect else res <> expect) then
+                     mismatch "fidelity" "ParseAndBuildAST %s: implementation tree %s, model %s on %s" (shorten toks.(1)) (shorten res) (shorten expect) (shorten head)
                  end
                end
              | _ -> if res <> "?" then mismatch "api" "unknown op %s" op
